@@ -1,6 +1,7 @@
-// Family `gen`: differential validation of the source-to-Lean translators translate/levels_to_lean.py and
-// translate/hashstream_to_lean.py.  The REAL inline functions of forest_levels.h / defines.h / hash_stream.h
-// (as compiled into this harness from /repo's current headers) are called on many inputs; the acceptor
+// Family `gen`: differential validation of the source-to-Lean translators translate/levels_to_lean.py,
+// translate/hashstream_to_lean.py and translate/counterarray_to_lean.py.  The REAL inline functions of
+// forest_levels.h / defines.h / hash_stream.h / arrays.h (as compiled into this harness from /repo's current
+// headers) and the real counter_array of the library (arrays.cc) are called on many inputs; the acceptor
 // lean/MeddlyModel/Fam/GenAccept.lean evaluates the GENERATED Lean functions on the same inputs.
 //
 //   lv <fn> <k> -> <r>            fn: ABS MDD.downLevel MDD.upLevel MXD.downLevel MXD.upLevel
@@ -13,11 +14,18 @@
 //                                               <spec> (`1` push(a), `2` push(a,b), `3` push(a,b,c); `.` = no
 //                                               call) consuming the words in order, then finish()
 //                                               -> `throw <E>` if a call throws
+//   gc new <0|1>                  a fresh counter_array (1: with a recording array_watcher)
+//   gc <op> <args> -> <result> <entry_bits>      op: expand n | shrink n | get i | swap i j | inc i | dec i |
+//                                               izbi i | ipad i | rep n inc|dec|izbi|ipad i (-> sum of the n results)
+//   gc watched -> <e|s>:<old>:<new> ...         the calls received by the watcher so far (`-` if none)
 // Cases: 0 unary level functions, 1..5 one binary level function each (all pairs of [-40,40] and large levels),
-//        6 rot / mix / final_mix, 7.. random hash streams (200 per case).
+//        6 rot / mix / final_mix, 7.. random hash streams (200 per case), then 24 (thorough 80) counter_array
+//        histories: in-contract call sequences that push single counters across 255/256 and 65535/65536 in both
+//        directions, interleaved with expand / shrink (with and without narrowing 16->8, 32->16, 32->8).
 #include "common.h"
 #include "forest_levels.h"
 #include "hash_stream.h"
+#include "arrays.h"
 #include <climits>
 using namespace MEDDLY;
 using namespace mdh;
@@ -151,9 +159,131 @@ void stream(Rng& r) {
     STATS.hit(std::string("hs.shape") + char('0' + shape));
 }
 
+// ===================================================================== counter_array histories
+struct Watcher : public array_watcher {
+    std::string log;
+    void expandElementSize(unsigned o, unsigned n) override { log += " e:" + std::to_string(o) + ":" + std::to_string(n); }
+    void shrinkElementSize(unsigned o, unsigned n) override { log += " s:" + std::to_string(o) + ":" + std::to_string(n); }
+};
+
+struct CaDriver {
+    Watcher* w;
+    counter_array ca;
+    size_t size = 0;
+    Rng& r;
+    CaDriver(Rng& rr, Watcher* ww) : w(ww), ca(ww), r(rr) {}
+    unsigned bits() { return unsigned(ca.entry_bits()); }
+    void watched() { if (w) emits("gc watched ->" + (w->log.empty() ? std::string(" -") : w->log)); }
+    void expand(size_t n) {
+        unsigned before = bits();
+        ca.expand(n); if (n > size) size = n;
+        emit("gc expand %zu -> 0 %u", n, bits()); STATS.hit("gc.expand");
+        if (bits() < before) STATS.hit("gc.narrow." + std::to_string(before) + "to" + std::to_string(bits()) + ".expand");
+    }
+    void shrink(size_t n) {
+        unsigned before = bits();
+        bool dirty = false;
+        for (size_t i = n; i < size; i++) if (ca.get(i) >= 256) dirty = true;
+        ca.shrink(n); if (n < size) size = n;
+        emit("gc shrink %zu -> 0 %u", n, bits());
+        STATS.hit(dirty ? "gc.shrink.dropsLarge" : "gc.shrink");
+        if (bits() < before) STATS.hit("gc.narrow." + std::to_string(before) + "to" + std::to_string(bits()) + ".shrink");
+    }
+    void get(size_t i) { emit("gc get %zu -> %u %u", i, ca.get(i), bits()); STATS.hit("gc.get"); }
+    void swap(size_t i, size_t j) { ca.swap(i, j); emit("gc swap %zu %zu -> 0 %u", i, j, bits()); STATS.hit(i == j ? "gc.swap.same" : "gc.swap"); }
+    void noteCross(unsigned before, unsigned after) {
+        if (before == 255 && after == 256) STATS.hit("gc.cross.255up");
+        if (before == 256 && after == 255) STATS.hit("gc.cross.256down");
+        if (before == 65535 && after == 65536) STATS.hit("gc.cross.65535up");
+        if (before == 65536 && after == 65535) STATS.hit("gc.cross.65536down");
+    }
+    unsigned call(int kind, size_t i) {   // 0 inc, 1 dec, 2 izbi, 3 ipad
+        unsigned before = ca.get(i), res = 0;
+        switch (kind) {
+            case 0: ca.increment(i); break;
+            case 1: ca.decrement(i); break;
+            case 2: res = ca.isZeroBeforeIncrement(i) ? 1 : 0; break;
+            default: res = ca.isPositiveAfterDecrement(i) ? 1 : 0; break;
+        }
+        noteCross(before, ca.get(i));
+        return res;
+    }
+    static const char* kname(int k) { static const char* n[] = {"inc", "dec", "izbi", "ipad"}; return n[k]; }
+    void one(int kind, size_t i) {
+        unsigned before = bits();
+        unsigned res = call(kind, i);
+        emit("gc %s %zu -> %u %u", kname(kind), i, res, bits());
+        STATS.hit(std::string("gc.") + kname(kind));
+        if (bits() > before) STATS.hit("gc.widen." + std::to_string(before) + "to" + std::to_string(bits()));
+    }
+    void rep(int kind, size_t i, unsigned n) {
+        unsigned long sum = 0;
+        unsigned before = bits();
+        for (unsigned k = 0; k < n; k++) sum += call(kind, i);
+        emit("gc rep %u %s %zu -> %lu %u", n, kname(kind), i, sum, bits());
+        STATS.hit("gc.rep");
+        if (bits() > before) STATS.hit("gc.widen." + std::to_string(before) + "to" + std::to_string(bits()));
+    }
+    void driveTo(size_t i, unsigned target) {
+        unsigned cur = ca.get(i);
+        if (cur < target) rep(r.chance(1, 2) ? 0 : 2, i, target - cur);
+        else if (cur > target) rep(r.chance(1, 2) ? 1 : 3, i, cur - target);
+    }
+    void resize() {
+        size_t n = size_t(r.below(17));
+        if (r.chance(1, 2)) {     // a clean shrink / growth: keep every entry >= 256 inside
+            size_t lastLarge = 0;
+            for (size_t i = 0; i < size; i++) if (ca.get(i) >= 256) lastLarge = i + 1;
+            if (n < lastLarge) n = lastLarge;
+        }
+        // shrink(0) of a non-empty array is outside the contract (realloc(p, 0): `.error .unmodelled` in the model)
+        if (n == 0) n = 1;
+        if (n >= size) expand(n == size ? n + 1 : n); else shrink(n);
+    }
+};
+
+void counterHistory(Rng& r, bool thorough) {
+    Watcher w;
+    bool withWatcher = r.chance(2, 3);
+    emit("gc new %d", withWatcher ? 1 : 0);
+    CaDriver d(r, withWatcher ? &w : nullptr);
+    d.watched();
+    if (r.chance(1, 6)) d.expand(0);          // no-op on the empty array
+    d.expand(size_t(r.range(1, 10)));
+    int steps = thorough ? r.range(60, 400) : r.range(30, 160);
+    static const unsigned edges[] = {0, 1, 2, 254, 255, 256, 257, 65534, 65535, 65536, 65537, 70000};
+    for (int s = 0; s < steps; s++) {
+        size_t i = size_t(r.below(unsigned(d.size)));
+        unsigned x = r.below(100);
+        if (x < 10) d.resize();
+        else if (x < 20) d.get(i);
+        else if (x < 25) d.swap(i, r.chance(1, 5) ? i : size_t(r.below(unsigned(d.size))));
+        else if (x < 40) {
+            unsigned t = edges[r.chance(3, 4) ? r.below(7) : r.below(12)];
+            d.driveTo(i, t);
+            d.get(i);
+        } else {
+            unsigned cur = d.ca.get(i);
+            int kind = int(r.below(4));
+            if (cur == 0 && (kind == 1 || kind == 3)) kind = r.chance(1, 2) ? 0 : 2;   // in contract: no decrement of zero
+            d.one(kind, i);
+            if (r.chance(1, 3)) d.get(i);
+        }
+        if (r.chance(1, 25)) d.watched();
+    }
+    // final sweep: everything back below a width boundary, then a resize (narrowing back to 8 bits)
+    if (r.chance(2, 3)) {
+        for (size_t i = 0; i < d.size; i++) { d.driveTo(i, r.chance(1, 2) ? 0 : r.below(256)); d.get(i); }
+        if (d.size > 2 && r.chance(1, 2)) d.shrink(1); else if (d.size > 1 && r.chance(1, 2)) d.shrink(d.size - 1); else d.expand(d.size + 1 + r.below(4));
+        for (size_t i = 0; i < d.size; i++) d.get(i);
+    }
+    d.watched();
+}
+
 int run(const Args& A) {
     const long nstreamCases = A.cases > 0 ? A.cases : (A.thorough() ? 500 : 50);
-    const long ncases = 7 + nstreamCases;
+    const long ncaCases = A.thorough() ? 80 : 24;
+    const long ncases = 7 + nstreamCases + ncaCases;
     for (long c = 0; c < ncases; c++) {
         if (!A.selected(c)) continue;
         Rng r(Rng::mix(A.seed, uint64_t(c)));
@@ -161,10 +291,11 @@ int run(const Args& A) {
         if (c == 0) unaryLevels();
         else if (c <= 5) binaryLevels(int(c - 1));
         else if (c == 6) helpers(r, A.thorough() ? 20000 : 2000);
-        else for (int i = 0; i < 200; i++) stream(r);
+        else if (c < 7 + nstreamCases) for (int i = 0; i < 200; i++) stream(r);
+        else counterHistory(r, A.thorough());
         endCase();
     }
     return 0;
 }
-FamilyReg reg("gen", run, "translator validation: level arithmetic and hash_stream, real functions vs generated Lean");
+FamilyReg reg("gen", run, "translator validation: level arithmetic, hash_stream and counter_array, real functions vs generated Lean");
 }  // namespace
